@@ -30,6 +30,7 @@ type exploreStats struct {
 	Schedules  map[string]struct{} // distinct choice sequences (== Execs, kept as a determinism cross-check)
 	Finding    *finding
 	FindingSch []int
+	MaxShared  int
 }
 
 const horizon = 20000
@@ -103,6 +104,9 @@ func explore(sc *scenario, bound int, maxExecs int64, outcome func(x *vrt.Exec) 
 		st.Steps += int64(x.Steps)
 		if len(x.Points) > st.MaxPoints {
 			st.MaxPoints = len(x.Points)
+		}
+		if x.Shared > st.MaxShared {
+			st.MaxShared = x.Shared
 		}
 		if f != nil {
 			st.Finding, st.FindingSch = f, choices(x)
